@@ -218,7 +218,9 @@ func (o *DatReaderOptimizer) loadGeoSite(filename string, code string) (params [
 		filename += ".dat"
 	}
 
-	cacheKey := strings.ToLower(filename + ":" + code)
+	// Codes are matched case-insensitively by the geodata decoder; file names are looked up as
+	// written (two files may differ in letter case only), so only the code is folded.
+	cacheKey := filename + ":" + strings.ToLower(code)
 	o.mu.Lock()
 	o.initCacheLocked()
 	if cached, ok := o.geoSiteCache[cacheKey]; ok {
@@ -294,7 +296,9 @@ func (o *DatReaderOptimizer) loadGeoIp(filename string, code string) (params []*
 		filename += ".dat"
 	}
 
-	cacheKey := strings.ToLower(filename + ":" + code)
+	// Codes are matched case-insensitively by the geodata decoder; file names are looked up as
+	// written (two files may differ in letter case only), so only the code is folded.
+	cacheKey := filename + ":" + strings.ToLower(code)
 	o.mu.Lock()
 	o.initCacheLocked()
 	if cached, ok := o.geoIpCache[cacheKey]; ok {
